@@ -81,7 +81,7 @@ theorem render_agree {s s' : St} {good : Nat → Prop} (ag : Agree s s' good) (h
 /-- handle well-formedness relative to the ghost bound `top` -/
 def HWF (s : St) (top : Nat → Nat) : Handle → Prop
   | .ptr m => m < s.nodes.length
-  | .list sl => SWF s.arrs sl ∧ 0 < sl.len ∧ sl.len ≤ top sl.arr
+  | .list sl => SWF s.arrs sl ∧ 0 < sl.len ∧ sl.len ≤ top sl.arr ∧ Handle.nil ∉ view s.arrs sl
   | _ => True
 
 /-- node well-formedness: children slices are well-formed and below `top` -/
@@ -113,6 +113,6 @@ theorem render_frame {top : Nat → Nat} {s s' : St} (fr : StFrame top s s') (nw
     | _ => trivial
   · intro sl hsl
     subst hsl
-    exact fr.2.view_eq sl hw.2.2
+    exact fr.2.view_eq sl hw.2.2.1
 
 end PV.Slice
